@@ -521,6 +521,13 @@ def c18_streams(seed, tier):
                 lines = [f"umod dlerp {q(speed)}", f"utick {q(d)} 1"]
                 lines += [f"uapply {tgt}"] * 3 + ["uapply 1:0"] * 2
                 scs.append([f"scenario c18u{i}"] + lines + ["endscenario"]); i += 1
+    # ExponentialCurve with exponents that are not natural numbers (below and above 1): on the fixed points of every positive
+    # exponent (components 0, 1, -1) the result is exact in f32 and in the model
+    fixed = ["b0", "b1", "1:0", "1:1", "1:-1"] + [f"2:{x},{y}" for x in (0, 1, -1) for y in (0, 1, -1)] + \
+            [f"3:{x},{y},{z}" for x in (0, 1, -1) for y in (0, 1, -1) for z in (0, 1, -1)]
+    for ex in ("1/2 1/2 1/2", "3/2 1/4 5/2", "1/4 2 1/2", "2 1/2 3", "1/8 1/8 1/8"):
+        lines = [f"umod exp {ex}", "utick 1/64 1"] + [f"uapply {v}" for v in fixed]
+        scs.append([f"scenario c18u{i}"] + lines + ["endscenario"]); i += 1
     # DeltaLerp histories that approach a target until the snap branch triggers (distance < 1/100 without being equal), then
     # move on: exact with alpha in {1/2, 1} (one more mantissa bit per halving step; at most 12 of them per chain)
     fine = [Fr(k, 128) for k in range(-4, 5)] + [Fr(1), Fr(-1), Fr(2), Fr(1, 2)]
